@@ -360,7 +360,10 @@ impl C11 {
     fn twin_stack_case(&mut self, idx: u64, obs: &mut Obs) {
         let mut rng = Rng::for_case("C11twin", self.seed, idx);
         let mut body = String::new();
-        for _ in 0..1 + rng.below(6) {
+        for _ in 0..rng.below(4) {
+            body.push_str(rng.pick_str(&["1 ", "2 ", "3 ", "[ 4 5 ] ", "\"s\" "]));
+        }
+        for _ in 0..1 + rng.below(5) {
             body.push_str(rng.pick_str(&[
                 "1", "2", "3", "7", "\"s\"", "[ 4 5 ]", "nil", "drop", "dup", "swap", "over", "rot", "depth", "collect", "+", "*", "-", "max", "len", "reverse",
                 "concat", "[", "]", "not", "nip", "tuck", "2 collect", "1 3 collect", "depth collect", "0 collect", "5 const TK", "unbox", "= ", "assert-eq", "print",
